@@ -90,6 +90,21 @@ def generate(ctx):
                 cls = "coincident-middle-last"
         else:
             pts = [[rng.gauss(0, 1) * scale for _ in range(3)] for _ in range(3)]
+            if rng.random() < 0.25:
+                # flat but clearly NOT collinear: the middle point 10^-2.5 … 10^-5.5 rad off the line through the
+                # other two (sin(angle) well above the code's 1e-6): the third vector must still be the normal of
+                # the plane of the points (seed C17-8: squared norms compared against an unsquared tolerance)
+                p0, p2 = pts[0], pts[2]
+                dd = [p2[j] - p0[j] for j in range(3)]
+                L = math.sqrt(sum(c * c for c in dd)) or 1.0
+                e = [rng.gauss(0, 1) for _ in range(3)]
+                dot = sum(e[j] * dd[j] for j in range(3)) / (L * L)
+                e = [e[j] - dot * dd[j] for j in range(3)]
+                le = math.sqrt(sum(c * c for c in e)) or 1.0
+                t = rng.uniform(-1.5, 2.5)
+                ang = 10 ** -rng.uniform(2.5, 5.5)
+                pts[1] = [p0[j] + t * dd[j] + ang * abs(t) * L * e[j] / le for j in range(3)]
+                cls = "nearly-collinear"
         yield {"kind": "frame", "p": pts, "cls": cls}
 
 
